@@ -118,8 +118,10 @@ func CalculateAmountToClaim(
 	} else {
 		// calculate based on flow rate and remaining deposit
 		secondsSinceLast := wholeSecondsBetween(lastOutflowTime, nowTime)
-		numCoins := secondsSinceLast * flowRate
-		amountToClaim = sdk.NewCoin(deposit.Denom, sdk.NewIntFromUint64(uint64(numCoins)))
+		// multiply as sdk.Int: seconds x flow rate does not fit into int64 for high flow rates,
+		// and the wrapped product made a claim pay nothing, or the whole deposit
+		numCoins := sdk.NewInt(secondsSinceLast).Mul(sdk.NewInt(flowRate))
+		amountToClaim = sdk.NewCoin(deposit.Denom, numCoins)
 		if deposit.Amount.GT(amountToClaim.Amount) {
 			remainingDepositValue = deposit.Sub(amountToClaim)
 		} else {
